@@ -17,70 +17,70 @@ static int ref_nibble(char c)
 }
 static bool ref_space(char c) { return c == ' ' || c == '\t' || c == '\n' || c == '\v' || c == '\f' || c == '\r'; }
 
-#ifndef N
-#define N 3
+#ifndef NB
+#define NB 3
 #endif
 // bytes -> text -> bytes
 extern "C" void h_hex_roundtrip()
 {
-    uint8_t b[N + 1];
-    for (int i = 0; i < N; i++) b[i] = nondet_u8();
-    const std::string s = HexStr(std::span<const uint8_t>(b, (size_t)N));
-    VASSERT(s.size() == 2 * N, "HexStr emits two characters per byte");
-    bool same = s.size() == 2 * N;
-    for (int i = 0; i < N && same; i++) same = s[2 * i] == DIG[b[i] >> 4] && s[2 * i + 1] == DIG[b[i] & 15];
+    uint8_t b[NB + 1];
+    for (int i = 0; i < NB; i++) b[i] = nondet_u8();
+    const std::string s = HexStr(std::span<const uint8_t>(b, (size_t)NB));
+    VASSERT(s.size() == 2 * NB, "HexStr emits two characters per byte");
+    bool same = s.size() == 2 * NB;
+    for (int i = 0; i < NB && same; i++) same = s[2 * i] == DIG[b[i] >> 4] && s[2 * i + 1] == DIG[b[i] & 15];
     VASSERT(same, "HexStr emits lowercase digits, high nibble first");
-    VASSERT(IsHex(s) == (N > 0), "HexStr output of a non-empty string is recognised by IsHex");
+    VASSERT(IsHex(s) == (NB > 0), "HexStr output of a non-empty string is recognised by IsHex");
     const auto back = TryParseHex<uint8_t>(s);
     VASSERT(back.has_value(), "HexStr output parses");
-    bool eq = back.has_value() && back->size() == (size_t)N;
-    for (int i = 0; i < N && eq; i++) eq = (*back)[i] == b[i];
+    bool eq = back.has_value() && back->size() == (size_t)NB;
+    for (int i = 0; i < NB && eq; i++) eq = (*back)[i] == b[i];
     VASSERT(eq, "TryParseHex(HexStr(b)) == b");
     verif_observe(same); verif_observe(eq);
-#if N > 0
+#if NB > 0
     VWITNESS(s[0] == 'f' && s[1] == '0', "0xf0 prints as f0");
 #endif
     VREACH("end");
 }
 
-#ifndef L
-#define L 4
+#ifndef NC
+#define NC 4
 #endif
-// every character string of length L (all 256 values per character, NUL included)
+// every character string of length NC (all 256 values per character, NUL included)
 extern "C" void h_hex_parse_all()
 {
-    char c[L + 1];
-    for (int i = 0; i < L; i++) c[i] = (char)nondet_u8();
-    c[L] = 0;
-    const std::string_view sv(c, (size_t)L);
+    char c[NC + 1];
+    for (int i = 0; i < NC; i++) c[i] = (char)nondet_u8();
+    c[NC] = 0;
+    const std::string_view sv(c, (size_t)NC);
     // reference parse
-    uint8_t out[L / 2 + 1]; int n = 0; bool ok = true; bool sawspace = false;
+    uint8_t out[NC / 2 + 1]; int n = 0; bool ok = true; bool sawspace = false;
     {
         int i = 0;
-        for (int step = 0; step < L + 1; step++) {     // at most L steps; concrete trip count for the model checker
-            if (i >= L || !ok) continue;
+        for (int step = 0; step < NC + 1; step++) {     // at most NC steps; concrete trip count for the model checker
+            if (i >= NC || !ok) continue;
             if (ref_space(c[i])) { i++; sawspace = true; continue; }
-            if (i + 1 >= L) { ok = false; continue; }
+            if (i + 1 >= NC) { ok = false; continue; }
             const int hi = ref_nibble(c[i]), lo = ref_nibble(c[i + 1]);
             if (hi < 0 || lo < 0) { ok = false; continue; }
             out[n++] = (uint8_t)(hi * 16 + lo); i += 2;
         }
     }
     bool allhex = true;
-    for (int i = 0; i < L; i++) allhex = allhex && ref_nibble(c[i]) >= 0;
-    const bool ref_ishex = L > 0 && L % 2 == 0 && allhex;
+    for (int i = 0; i < NC; i++) allhex = allhex && ref_nibble(c[i]) >= 0;
+    const bool ref_ishex = NC > 0 && NC % 2 == 0 && allhex;
 
     const auto got = TryParseHex<uint8_t>(sv);
     verif_observe(got.has_value());
     VASSERT(got.has_value() == ok, "TryParseHex accepts exactly: whitespace-separated pairs of hex digits");
     if (got.has_value()) {
         bool eq = got->size() == (size_t)n;
-        for (int i = 0; i < L / 2; i++) if (i < n && eq) eq = (*got)[i] == out[i];
+        for (int i = 0; i < NC / 2; i++) if (i < n && eq) eq = (*got)[i] == out[i];
         VASSERT(eq, "parsed bytes equal the reference");
         if (!sawspace) {
             // canonical re-encoding: equals the input up to letter case
-            bool canon = n * 2 == L;
-            for (int i = 0; i < L / 2; i++) if (i < n && canon) {
+            bool canon = n * 2 == NC;
+            for (int i = 0; i < NC / 2; i++) if (i < n && canon) {
                 const char a0 = c[2 * i], a1 = c[2 * i + 1];
                 canon = DIG[out[i] >> 4] == ((a0 >= 'A' && a0 <= 'F') ? a0 + 32 : a0) && DIG[out[i] & 15] == ((a1 >= 'A' && a1 <= 'F') ? a1 + 32 : a1);
             }
@@ -90,16 +90,16 @@ extern "C" void h_hex_parse_all()
     const bool ih = IsHex(sv);
     verif_observe(ih);
     VASSERT(ih == ref_ishex, "IsHex: non-empty, even length, only hex digits");
-    VASSERT(!ih || (got.has_value() && got->size() == (size_t)(L / 2)), "IsHex strings parse to length/2 bytes");
+    VASSERT(!ih || (got.has_value() && got->size() == (size_t)(NC / 2)), "IsHex strings parse to length/2 bytes");
     // ParseHex: same bytes, empty vector on invalid input
     const std::vector<uint8_t> ph = ParseHex<uint8_t>(sv);
     VASSERT(ph.size() == (size_t)(ok ? n : 0), "ParseHex returns the bytes, or an empty vector for invalid input");
-#if L >= 2
-    VWITNESS(got.has_value() && n == L / 2, "some full-length string accepted");
+#if NC >= 2
+    VWITNESS(got.has_value() && n == NC / 2, "some full-length string accepted");
     VWITNESS(!got.has_value(), "some string rejected");
     VWITNESS(got.has_value() && c[0] == 'A' && c[1] == 'f' && out[0] == 0xaf, "mixed case accepted");
 #endif
-#if L >= 3
+#if NC >= 3
     VWITNESS(got.has_value() && sawspace && n == 1, "whitespace between bytes ignored");
     VWITNESS(!got.has_value() && ref_nibble(c[0]) >= 0 && ref_space(c[1]) && ref_nibble(c[2]) >= 0, "whitespace inside a byte rejected");
 #endif
